@@ -40,6 +40,23 @@ def run(tier, replay_file=None):
             hs, _ = gen.histories("Server", c, 18 if quick else 30, simulate=8 if quick else 120,
                                   seed=common.seed() * 100 + n * 2 + int(ad) + 1, cache=False)
             plans.append((unit, ad, hs))
+    # enumerated families (every history of the shape, so that nothing depends on which random histories a seed happens to draw):
+    # (a) one externalised instance: session begun, then ended / stepped / kept alive, time passes, then every kind of request
+    FAM_A = ('MC_Life == LET n == Len(hist\') h == hist\'[n] IN\n'
+             '   /\\ (n = 1 => h.op = "Start") /\\ (n = 2 => h.op = "Begin") /\\ (n = 3 => h.op \\in {"End", "Step", "KeepAlive"})\n'
+             '   /\\ (n = 4 => h.op = "Tick") /\\ (n \\in {5, 6} => h.op \\in {"Metrics", "Step", "End", "Begin", "Results", "KeepAlive"})\n')
+    ha, _ = gen.histories("Server", consts(True, OPS_ALL, insts='{"i1"}', maxnow=100000), 6, defs=FAM_A, extra_cfg={"action_constraints": ["MC_Life"]})
+    # (b) three instances in memory with different timeouts, accessed in different orders, time passing in between
+    FAM_B = ('MC_Sweep == LET n == Len(hist\') h == hist\'[n] IN\n'
+             '   /\\ (n \\in {1, 2} => h.op = "Start") /\\ (n = 2 => h.i # hist\'[1].i) /\\ (n \\in {3, 5} => h.op = "Tick")\n'
+             '   /\\ (n = 4 => h.op \\in {"KeepAlive", "Results", "Metrics", "Start"}) /\\ (n = 6 => h.op \\in {"KeepAlive", "Results"}) /\\ (n = 7 => h.op = "Metrics")\n')
+    hb, _ = gen.histories("Server", consts(False, OPS_MEM, insts='{"i1","i2","i3"}', maxnow=100000), 7, defs=FAM_B, extra_cfg={"action_constraints": ["MC_Sweep"]})
+    R.cov["enumerated_life_histories"], R.cov["enumerated_sweep_histories"] = len(ha), len(hb)
+    if quick:
+        import random as _r
+        ha = _r.Random(common.seed() + 1).sample(ha, min(len(ha), 250))
+        hb = _r.Random(common.seed() + 2).sample(hb, min(len(hb), 250))
+    plans += [("seconds", True, ha), ("minutes", True, ha[::3]), ("seconds", False, hb), ("hours", False, hb[::3])]
     expiries = 0
     ops = {}
     for pn, (unit, ad, hs) in enumerate(plans):
